@@ -455,7 +455,8 @@ func init() {
 				}
 			}
 			alpha = append(alpha, Op{Kind: "observe"}, Op{Kind: "clone"}, Op{Kind: "resolve", A: "?x=1&y"}, Op{Kind: "resolve", A: "#f"}, Op{Kind: "resolve", A: "z"})
-			starts := []string{"http://h/p?a=1&b=2#f", "http://h/p", "foo://h/p?", "mailto:x y  ?q=1#f", "data: text  ", "file:///C:/d?a=b&a=c", "foo:/p?a%26b=%3D&c+d=e+f"}
+			starts := []string{"http://h/p?a=1&b=2#f", "http://h/p", "foo://h/p?", "mailto:x y  ?q=1#f", "data: text  ", "file:///C:/d?a=b&a=c", "foo:/p?a%26b=%3D&c+d=e+f",
+				"\x1cfail|http://h/p?a=1&b=2#f", "\x1cfail|foo:/p?x=1"}
 			depth := 4
 			if c.Thorough() {
 				depth = 5
